@@ -80,6 +80,16 @@ theorem C18_repr_denote {α : Type} [Add α] [Mul α] [One α] [Zero α] (T : De
     denoteOracle T.shape T.get q = denoteOracle S.shape S.get q := by
   rw [← hs]; exact denoteOracle_congr T.shape T.get S.get hget q
 
+/-- `shape` / `ndims` are metadata: the answer to `Query.shape` is the shape itself, whatever the
+entries and whatever the representation — it is part of the interface (`isIface`), so a driver that
+reads it (every driver does: for the guess; `hosvd` and `tucker_als` also to validate the requested
+ranks against it) still satisfies the hypothesis of `C18_repr_independent`. -/
+theorem C18_repr_shape_is_metadata {α : Type} [Add α] [Mul α] [One α] [Zero α] (shape : List Nat)
+    (g₁ g₂ : List Nat → α) :
+    denoteOracle shape g₁ .shape = .nats shape ∧
+    denoteOracle shape g₁ .shape = denoteOracle shape g₂ .shape ∧
+    (Query.shape : Query α).isIface = true := ⟨rfl, rfl, rfl⟩
+
 /-- Hence the oracle-level CP-ALS iterates from the same guess coincide for the two holders. -/
 theorem C18_repr_als_dense_sparse {α : Type} [Add α] [Mul α] [One α] [Zero α]
     (solveNorm : List (Mat α) → Nat → Mat α → Mat α) (fitOf : α → List (Mat α) → Mat α → α)
@@ -146,6 +156,37 @@ theorem C18_print_silent {σ : Type} (L : Loop σ) (maxiters : Nat) (s : σ) :
   have h2 : prAls 0 = fun _ _ => false := by funext i f; simp [prAls]
   rw [h1, h2]
   exact ⟨run_silent_printed L maxiters 0 s [], run_silent_printed L maxiters 0 s []⟩
+
+/-- CP-APR MU (`tt_cp_apr_mu`): the outer loop modelled WITH its kappa fix-up — at the start of every
+mode of every outer iteration after the first, entries of the LIVE factor below `kappatol` whose
+multiplier `Phi` of the previous outer iteration is positive are lifted by `kappa` — and with the
+per-iteration status line as a pure read (`observe = id`).  For every `kappa`, `kappatol`, every
+data-dependent inner update and any two printing decisions the final state (model, multipliers,
+counters) and the iteration count coincide. -/
+theorem C18_print_independent_mu {α : Type} [Add α] [Zero α] [LT α] [DecidableLT α] (kappa kappatol : α)
+    (inner : Ktensor α → Nat → Ktensor α × Mat α × α × Bool) (p₁ p₂ maxiters : Nat) (s : MuState α) :
+    ((muLoop kappa kappatol inner).run (prMod p₁) maxiters 0 s []).state =
+      ((muLoop kappa kappatol inner).run (prMod p₂) maxiters 0 s []).state ∧
+    ((muLoop kappa kappatol inner).run (prMod p₁) maxiters 0 s []).iters =
+      ((muLoop kappa kappatol inner).run (prMod p₂) maxiters 0 s []).iters :=
+  mu_print_independent kappa kappatol inner _ _ maxiters 0 s [] []
+
+/-- Why strictly positive guesses cannot tell a printing branch that touches the live model from one
+that does not: the fix-up is the identity on a factor none of whose entries is below `kappatol`. -/
+theorem C18_print_mu_fixup_id {α : Type} [Add α] [Zero α] [LT α] [DecidableLT α] (kappa kappatol : α)
+    (Phi A : Mat α) (hsh : List.Forall₂ (fun prow arow => arow.length ≤ prow.length) Phi A)
+    (hpos : ∀ arow ∈ A, ∀ a ∈ arow, ¬ a < kappatol) : muFixup kappa kappatol Phi A = A :=
+  muFixup_id kappa kappatol Phi A hsh hpos
+
+/-- …and why the live model must not be touched when it has (near-)zero entries: the fix-up does not
+commute with a column rescaling of the factor (labelled instance: entry 1, threshold 2, lift 1, column
+weight 3 — fix-up then rescale gives 6, rescale then fix-up gives 3).  The equivalence "same Kruskal tensor
+up to redistribution of the weights" under which PDNR/PQNR's printing branch is harmless
+(`C18_print_apr_renormalise`) is therefore NOT respected by MU's step: MU's printing branch has to be a
+pure read. -/
+theorem C18_print_mu_fixup_sees_scaling :
+    scaleCols (muFixup (1 : Int) 2 [[1]] [[1]]) [3] = [[6]] ∧
+    muFixup (1 : Int) 2 [[1]] (scaleCols [[1]] [3]) = [[3]] := by decide
 
 /-- CP-APR PDNR/PQNR: the printing branch evaluates the log-likelihood, which re-normalises the
 model IN PLACE (`normalize(weight_factor=0, normtype=1)`).  At the end of an outer iteration
@@ -467,6 +508,11 @@ example : ∃ out out' : CpAls.Output ℝ,
   obtain ⟨r1, r2, r3, r4, _⟩ :=
     C18_scale_cpals_run CpAls.realNumOps_lawful hS (by norm_num) hD hD' hs hnorm hnz hnv hi hreg h h'
   exact ⟨out, out', h, h', r1, r2, r3, r4 [0, 0] rfl⟩
+-- the MU fix-up acts exactly on the (near-)zero entries with a positive multiplier, never in the first iteration
+example : muFixupIf 1 (1 : Int) 1 [[1, 0], [2, 3]] [[0, 0], [5, 0]] = [[1, 0], [5, 1]] ∧
+    muFixupIf 0 (1 : Int) 1 [[1, 0], [2, 3]] [[0, 0], [5, 0]] = [[0, 0], [5, 0]] ∧
+    muViolates (1 : Int) [[1, 0], [2, 3]] [[0, 0], [5, 0]] = true ∧
+    muViolates (1 : Int) [[1, 0], [2, 3]] [[4, 0], [5, 2]] = false := by decide
 -- the interface predicate separates the two kinds of query
 example : (Query.mttkrp ([] : List (Mat Int)) 0).isIface = true ∧ (Query.stored 0 : Query Int).isIface = false := by
   decide
